@@ -69,6 +69,17 @@ def ptraceRead (m : TMem) (src n : Nat) : Option Bytes :=
       | some w => some (ws ++ w.drop back)
       | none => none
 
+/-- `copy_from_process(src, length)` = a fresh `MemReader` (no strategy chosen yet) + `read_to_vec`: a zero length is
+    refused; otherwise the strategies in order of speed, the first that succeeds gives the result -/
+def copyFromProcess (m : TMem) (src n : Nat) : Option Bytes :=
+  if n = 0 then none else
+  match vmemRead m src n with
+  | some b => some b
+  | none =>
+    match fileRead m src n with
+    | some b => some b
+    | none => ptraceRead m src n
+
 /-- the tail handling before the repair -/
 def ptraceReadLegacy (m : TMem) (src n : Nat) : Option Bytes :=
   match ptraceWords m src (n / 8) with
